@@ -5,12 +5,8 @@ import CaresLemmas.ChanSockAnswer
 -/
 namespace Cares.Chan
 
-theorem sview_mk (cfg' : Cfg) (alive' : Bool) (now' : Nat) (servers' : List Server) (conns' : List Conn) (qs' : List Query) (nextKey' : Nat) (all' : List Nat) (byQid' : List (Nat × Nat)) (byTimeout' : List Nat) (listCopy' : List (List Nat)) (socks' : List VSock) (nextFd' : Nat) (faults' : List ScriptedFault) (pendingWl' : List Nat) (txs' : List Tx) (cache' : List CacheEntry) (reactions' : List (Nat × Reaction)) (pendingToks' : List Nat) (doneToks' : List Nat) (notifyPending' : Bool) (ev' : List String) (obs' : Obs) (modelFaults' : List String) (obsFaults' : List String) (outOfFuel' : Bool) (destroyed' : Bool) (destroying' : Bool) (selfVariant' : Nat) (lastQid' : Nat) (clients' : List Client) (nextClient' : Nat) (reactSeq' : Nat) (pendingOrder' : List Nat) (requeueArr' : List (Nat × Option Nat)) (writeLog' : List Nat) (notifyLog' : List (Nat × Bool × Bool)) (sockLog' : List (Nat × String)) (accepted' : List (Nat × Nat × Reply)) (picks' : List (Nat × Nat × Bool × List (Nat × Nat))) :
-    St.sview (St.mk cfg' alive' now' servers' conns' qs' nextKey' all' byQid' byTimeout' listCopy' socks' nextFd' faults' pendingWl' txs' cache' reactions' pendingToks' doneToks' notifyPending' ev' obs' modelFaults' obsFaults' outOfFuel' destroyed' destroying' selfVariant' lastQid' clients' nextClient' reactSeq' pendingOrder' requeueArr' writeLog' notifyLog' sockLog' accepted' picks') = ⟨conns'.map ckey, sockLog', notifyLog', nextFd'⟩ := rfl
 
-theorem sview_fold (s : St) : (⟨s.conns.map ckey, s.sockLog, s.notifyLog, s.nextFd⟩ : SView) = s.sview := rfl
-
-attribute [chan_frame, sview_frame] sview_removeFromConn sview_detach sview_freeQuery sview_sqPrep
+attribute [chan_frame, sview_frame] sview_removeFromConn sview_detach sview_freeQuery sview_sqPrep sview_sqLinkPre
 
 /-- discharge `X.conn? fd = some ?c` from a hypothesis about the same connection table -/
 macro "sinv_conn" : tactic => `(tactic| (simp only [St.conn?, chan_frame] at *; assumption))
@@ -60,11 +56,11 @@ theorem sqLink_SInv (pd : Bool) (key : Nat) (srv : Server) (fd : Nat) (s : St) (
     SInv w (sqLink go pd key srv fd s).1 := by
   unfold sqLink; sinv_peel hgo
 
-theorem sqWrite_SInv (reqSrv : Option Nat) (key : Nat) (q : Query) (srv : Server) (fd : Nat) (s : St)
-    (h : SInv w s) : SInv w (sqWrite go reqSrv key q srv fd s).1 := by
-  have h1 : SInv w (sqPrep key q srv fd s).1 := by simpa only [SInv, chan_frame] using h
+theorem sqWriteQ_SInv (reqSrv : Option Nat) (key : Nat) (q : Query) (srv : Server) (fd : Nat) (s : St)
+    (h : SInv w s) : SInv w (sqWriteQ go reqSrv key q srv fd s).1 := by
+  have h1 : SInv w (sqPrepare key q srv fd s).1 := by simpa only [SInv, chan_frame] using h
   have h2 := sqFlush_SInv w go hgo fd _ h1
-  unfold sqWrite
+  unfold sqWriteQ
   simp only []
   split
   · exact sqLink_SInv w go hgo _ _ _ _ _ h2
@@ -73,7 +69,7 @@ theorem sqWrite_SInv (reqSrv : Option Nat) (key : Nat) (q : Query) (srv : Server
 
 theorem bodySendQuery_SInv (reqSrv : Option Nat) (key : Nat) (s : St) (h : SInv w s) :
     SInv w (bodySendQuery go reqSrv key s).1 := by
-  rw [bodySendQuery_eq]
+  rw [bodySendQuery_stages]
   split
   · simpa only [SInv, chan_frame] using h
   · rename_i q _
@@ -81,17 +77,28 @@ theorem bodySendQuery_SInv (reqSrv : Option Nat) (key : Nat) (s : St) (h : SInv 
     split
     · exact hgo _ _ (by simpa only [SInv, chan_frame] using h)
     · rename_i srv _
-      have h0 : ∀ (x : List (Nat × Nat × Bool × List (Nat × Nat))),
-          SInv w { (pickServer reqSrv s).2 with picks := x } := by
-        intro x
-        have : SInv w (pickServer reqSrv s).2 := by simpa only [SInv, chan_frame] using h
-        simpa only [SInv, sview_mk, sview_fold] using this
-      generalize ({ (pickServer reqSrv s).2 with picks := _ } : St) = s1 at h0 ⊢
-      sorry
+      generalize hs1 : ({ (pickServer reqSrv s).2 with picks := _ } : St) = s1
+      have h1 : SInv w s1 := by
+        rw [← hs1]
+        simpa only [SInv, sview_mk, sview_fold, sview_frame] using h
+      cases hfc : fetchConn s1 q srv with
+      | some fd =>
+        simp only []
+        exact sqWriteQ_SInv w go hgo _ _ _ _ _ _ h1
+      | none =>
+        simp only []
+        have h2 := SInv_openConn h1 q.usingTcp srv
+        cases hr : (openConn s1 q.usingTcp srv).1 with
+        | error st =>
+          simp only []
+          exact hgo _ _ (by simpa only [SInv, sview_frame] using h2)
+        | ok fd =>
+          simp only []
+          exact sqWriteQ_SInv w go hgo _ _ _ _ _ _ h2
 
-theorem paTail_SInv (fd : Nat) (r : Reply) (c : Conn) (key : Nat) (q : Query) (s : St) (h : SInv w s) :
-    SInv w (paTail go fd r c key q s).1 := by
-  unfold paTail
+theorem paDeliver_SInv (fd : Nat) (r : Reply) (c : Conn) (key : Nat) (q : Query) (s : St) (h : SInv w s) :
+    SInv w (paDeliver go fd r c key q s).1 := by
+  unfold paDeliver
   sinv_peel hgo
 
 theorem bodyProcessAnswer_SInv (fd : Nat) (r : Reply) (s : St) (h : SInv w s) :
@@ -100,7 +107,7 @@ theorem bodyProcessAnswer_SInv (fd : Nat) (r : Reply) (s : St) (h : SInv w s) :
   | some key =>
     obtain ⟨c, q, _, _, _, heq⟩ := bodyProcessAnswer_accept go hk
     rw [heq]
-    exact paTail_SInv w go hgo fd r c key q _ h
+    exact paDeliver_SInv w go hgo fd r c key q _ h
   | none =>
     rcases bodyProcessAnswer_reject go hk with h' | ⟨e, h'⟩ | ⟨c, key, q, _, _, _, h'⟩
     · rw [h']; exact h
@@ -133,4 +140,26 @@ theorem execBody_SInv (c : Call) (s : St) (h : SInv w s) : SInv w (execBody go c
   all_goals (unfold_body; sinv_peel hgo)
 
 end
+
+/-- **The socket-protocol invariant holds along every run** (any procedure, any fuel) -/
+theorem exec_SInv (w : Option (Nat × List (Bool × Bool))) (fuel : Nat) (c : Call) (s : St) (h : SInv w s) :
+    SInv w (exec fuel c s).1 :=
+  exec_inv (SInv w) (fun s h => by simpa only [SInv, sview_frame] using h)
+    (fun go hgo c s h => execBody_SInv w go hgo c s h) fuel c s h
+
+/-- a channel without connections whose logs are empty satisfies the invariant -/
+theorem SInv_init (s : St) (hc : s.conns = []) (hl : s.sockLog = []) (hn : s.notifyLog = []) : SInv none s := by
+  refine ⟨?_, ?_, ?_, ?_, ?_, ?_, ?_, ?_, ?_⟩ <;>
+    simp [St.sview, hc, hl, hn, fdState, nproj, NotifyOK.nil]
+
+/-- once a descriptor is closed, its state and its notification stream never change again -/
+theorem exec_closed_frozen (fuel : Nat) (c : Call) (s : St) (h : SInv none s) (fd : Nat)
+    (hcl : fdState s.sockLog fd = .closed) :
+    fdState (exec fuel c s).1.sockLog fd = .closed ∧
+      nproj (exec fuel c s).1.notifyLog fd = nproj s.notifyLog fd := by
+  have h' : SInv (some (fd, nproj s.notifyLog fd)) s :=
+    ⟨h.notBad, h.connOpen, h.fresh, h.nodup, h.openHasConn, h.nOK, h.nLast, h.nFinal,
+      fun p hp => by cases hp; exact ⟨hcl, rfl⟩⟩
+  exact (exec_SInv _ fuel c s h').frozen _ rfl
+
 end Cares.Chan
